@@ -402,12 +402,18 @@ static void run_c14s(void)
         {
             unsigned bad128[] = {0, 17, 255, UINT_MAX}, bad64[] = {0, 9, 255, UINT_MAX}, badm[] = {0, 7, 9, 16, UINT_MAX}; unsigned i;
             for (i = 0; i < 4; ++i) {
+                C14_BEGIN("skinny128_set_tweak", "null-tweak-bad-len-128") memcpy(a, &t128, sizeof(t128)); LIB(r = skinny128_set_tweak(&t128, NULL, bad128[i]));
+                    if (r || memcmp(a, &t128, sizeof(t128))) c14_report("skinny128_set_tweak", "null-tweak-bad-length", cd, "NULL tweak with size %u: returned %d or changed the schedule", bad128[i], r); C14_END();
+                C14_BEGIN("skinny64_set_tweak", "null-tweak-bad-len-64") memcpy(a, &t64, sizeof(t64)); LIB(r = skinny64_set_tweak(&t64, NULL, bad64[i]));
+                    if (r || memcmp(a, &t64, sizeof(t64))) c14_report("skinny64_set_tweak", "null-tweak-bad-length", cd, "NULL tweak with size %u: returned %d or changed the schedule", bad64[i], r); C14_END();
                 C14_BEGIN("skinny128_set_tweak", "bad-tweak-len-128") memcpy(a, &t128, sizeof(t128)); LIB(r = skinny128_set_tweak(&t128, flush_buf(key, 1), bad128[i]));
                     if (r || memcmp(a, &t128, sizeof(t128))) c14_report("skinny128_set_tweak", "bad-length", cd, "tweak size %u: returned %d or changed the schedule", bad128[i], r); C14_END();
                 C14_BEGIN("skinny64_set_tweak", "bad-tweak-len-64") memcpy(a, &t64, sizeof(t64)); LIB(r = skinny64_set_tweak(&t64, flush_buf(key, 1), bad64[i]));
                     if (r || memcmp(a, &t64, sizeof(t64))) c14_report("skinny64_set_tweak", "bad-length", cd, "tweak size %u: returned %d or changed the schedule", bad64[i], r); C14_END();
             }
             for (i = 0; i < 5; ++i) {
+                C14_BEGIN("mantis_set_tweak", "null-tweak-bad-len-mantis") memcpy(a, &mk, sizeof(mk)); LIB(r = mantis_set_tweak(&mk, NULL, badm[i]));
+                    if (r || memcmp(a, &mk, sizeof(mk))) c14_report("mantis_set_tweak", "null-tweak-bad-length", cd, "NULL tweak with size %u: returned %d or changed the schedule", badm[i], r); C14_END();
                 C14_BEGIN("mantis_set_tweak", "bad-tweak-len-mantis") memcpy(a, &mk, sizeof(mk)); LIB(r = mantis_set_tweak(&mk, flush_buf(key, 1), badm[i]));
                     if (r || memcmp(a, &mk, sizeof(mk))) c14_report("mantis_set_tweak", "bad-length", cd, "tweak size %u: returned %d or changed the schedule", badm[i], r); C14_END();
             }
